@@ -408,6 +408,19 @@ def size_guards(check, prog, accepted):
                           'where a Sphere gives log-prior = -inf' % (cname, a))
 
 
+def size_guards_of_accepted(check, prog):
+    """size_guards for the classes named in Tmatrix.can_handle (entry for the
+    properties that rely on InvalidScatterer: C12's log-prior = -inf)"""
+    qc = TMATRIX + '.can_handle'
+    it = Interp(prog, max_depth=2)
+    r = it.analyze(qc)
+    names = sorted({x[1] for x in subterms(r.ret) if x[0] == 'classref'})
+    check.need('classes named in Tmatrix.can_handle', len(names), 3, 'E3-size-guard',
+               'Tmatrix.can_handle classes', 'the theory names the shapes it accepts',
+               prog.loc(qc, prog.func(qc)))
+    size_guards(check, prog, names)
+
+
 def _mat2(rows):
     return [[rows[0][0], rows[0][1]], [rows[1][0], rows[1][1]]]
 
